@@ -498,6 +498,10 @@ class G:
             pass
         if m["kind"] == "func" and len(m["fm"]) == 1 and m["fm"][0][0] == "val" and r.random() < 0.3:
             m["identity"] = True
+            if r.random() < 0.4:
+                # noisy identity: a side effect that makes a second evaluation of the caller's operand visible
+                m["impure"] = True
+                return ("seq", [("sysst", 1, [("chr", r.choice(b"!?*")), ("num", 0)]), ("ret", ("var", m["fm"][0][1]))])
             return ("ret", ("var", m["fm"][0][1]))
         ss = self.declare_locals(m, c)
         n = r.choice([0, 1, 2, 3, 4]) if self.size >= 1 else r.choice([0, 1, 2])
